@@ -363,3 +363,35 @@ type lockEvent struct {
 }
 
 var _ = fmt.Sprint
+
+// chanqueue.New[T]: contract model = one unbounded FIFO channel serving as both
+// input and output (In never blocks, Out yields in order, closing In closes Out
+// after the queue drains). The real implementation runs a buffering goroutine.
+func init() {
+	extraIntrinsics = append(extraIntrinsics, func(p *Program) {
+		mk := func(ex *Exec, fr *Frame, args []Value) Value {
+			if args[0] != nil {
+				if opts, ok := args[0].([]Value); ok && len(opts) > 0 {
+					ex.unsupported("chanqueue.New with options")
+				}
+			}
+			pt := fr.fn.Signature.Results().At(0).Type()
+			st := deref(pt)
+			q := zero(st).(Struct)
+			var elem types.Type
+			if ta := fr.fn.TypeArgs(); len(ta) > 0 {
+				elem = ta[0]
+			}
+			ex.nextChanID++
+			ch := &Chan{id: ex.nextChanID, cap: 1 << 30, elemT: elem}
+			ex.setField(q, st, "input", ch)
+			ex.setField(q, st, "inRdWr", ch)
+			ex.setField(q, st, "output", ch)
+			ex.setField(q, st, "capacity", mkConst(64, ^uint64(0)))
+			var cell Value = q
+			return &cell
+		}
+		p.reg("github.com/gammazero/chanqueue.New", mk)
+		p.reg("github.com/gammazero/chanqueue.New[T]", mk)
+	})
+}
